@@ -775,7 +775,7 @@ def run(ctx):
     known = {k["key"]: k for k in ctx.known.for_property("C15")}
     run_corpus(ctx, exe, known)
 
-    n = 400 if not ctx.thorough else 4000
+    n = 300 if not ctx.thorough else 4000
     cases = make_cases(ctx, n, "g")
     corr, orc = evaluate(ctx, cases, exe, model)
     ctx.cov["samples"] = ["%s: %s | probes %s" % (c["cls"], "; ".join("%s match=%s use=%s" % (d["name"][0], d["match"], d["use"]) for d in c["decls"]),
@@ -811,13 +811,30 @@ def run(ctx):
 
 
 def replay(ctx, path):
+    """re-run the stored transformation on the current tree and re-evaluate the run-local oracle lines"""
     core.build_lib("plain")
     exe, ok_h, hlog = xsltrun.build()
     txt = open(path).read()
-    js = txt[txt.index("{"):]
-    e = json.loads(js)
+    i = 0 if txt.startswith("{") else txt.index("\n{") + 1
+    e, _ = json.JSONDecoder().raw_decode(txt[i:])
     res = xsltrun.run([{"id": "replay", "sheet": e["sheet"], "source": e["source"], "files": e.get("files", {}), "opts": e.get("opts", "")}], exe=exe)
     r = res["replay"]
     print(e.get("what", ""))
-    print(r[1].decode("utf-8", "replace") if r[0] == "ok" else r)
-    return 0
+    if r[0] != "ok":
+        print(r)
+        return 1
+    out = r[1].decode("utf-8", "replace")
+    print(out)
+    if "expected" in e:
+        ok = out == e["expected"]
+        print("expected %r: %s" % (e["expected"], "as expected" if ok else "DIFFERS"))
+        return 0 if ok else 1
+    bad = 0
+    for pi, p in sorted(parse_pass2(out).items()):
+        if p["B"] is not None and p["K"] != p["B"]:
+            print("FAILS: probe %d key() = %s, brute force = %s" % (pi, p["K"], p["B"]))
+            bad += 1
+        if p["C"] is not None and not (p["C"][0] == p["C"][1] == p["C"][2]):
+            print("FAILS: probe %d counts (key|bf, key, bf) = %r" % (pi, p["C"]))
+            bad += 1
+    return 1 if bad else 0
